@@ -1207,7 +1207,55 @@ class NPFacade(types.ModuleType):
     def trace(self, a):
         return shim_sum([a[i, i] for i in range(min(a.shape))], K0)
 
-    def _red(self, a, axis, pick):
+    def _extreme(self, vals, kind):
+        """max / min of a list of scalars.  Up to two symbolic candidates: comparison
+        (forks).  More: a fresh variable M with  M >= v_i for all i  and  M == v_i for
+        some i  (exact semantics of max, no path split)."""
+        vals = [_liftc(v) for v in vals]
+        if any(isinstance(v, SC) for v in vals):
+            raise Unsupported('max/min of complex values')
+        gt = (lambda u, v: u > v) if kind == 'max' else (lambda u, v: u < v)
+        ge = '>=' if kind == 'max' else '<='
+        consts = [v for v in vals if isinstance(v, K)]
+        syms = [v for v in vals if not isinstance(v, K)]
+        if not syms:
+            best = consts[0]
+            for v in consts[1:]:
+                if gt(v.v, best.v):
+                    best = v
+            return best
+        if len(syms) <= 2 or S.CTX.domain == 'f':
+            best = vals[0]
+            for v in vals[1:]:
+                if bool(gt(v, best)):
+                    best = v
+            return best
+        if consts:
+            cb = consts[0]
+            for v in consts[1:]:
+                if gt(v.v, cb.v):
+                    cb = v
+            cand = syms + [cb]
+        else:
+            cand = syms
+        lazy = all((isinstance(v, S.LazySqrt) and not v.forced) or (isinstance(v, K) and v.v >= 0) for v in cand)
+        M = S.fresh('max' if kind == 'max' else 'min')
+        c = S.CTX
+        rads = [(v.rad if isinstance(v, S.LazySqrt) else K(v.v * v.v)) for v in cand] if lazy else cand
+        ges, eqs = [], []
+        for r in rads:
+            ges.append(S._cmp(M, r, ge))
+            eqs.append(S._cmp(M, r, '=='))
+        g = S.sb_and(ges)
+        e = S.sb_or(eqs)
+        for x in (g, e):
+            if isinstance(x, SymBool):
+                c.add(x.e)
+            elif not x:
+                raise S.Infeasible('max constraint')
+        return S.sqrt(M) if lazy else M
+
+    def _red(self, a, axis, kind):
         if _isq(a):
             raise Unsupported('max/min of quaternion array')
         a = a if isinstance(a, _np.ndarray) else self.asarray(a)
@@ -1215,27 +1263,21 @@ class NPFacade(types.ModuleType):
             a = to_robj(a)
         if axis is None:
             if a.size == 0:
-                raise ValueError('zero-size array to reduction operation which has no identity')
-            it = iter(a.flat)
-            best = _liftc(next(it))
-            for v in it:
-                v = _liftc(v)
-                if pick(v, best):
-                    best = v
-            return best
+                raise ValueError('zero-size array to reduction operation %s which has no identity' % ('maximum' if kind == 'max' else 'minimum'))
+            return self._extreme(list(a.flat), kind)
         ax = axis if axis >= 0 else axis + a.ndim
         moved = _np.moveaxis(a, ax, -1)
         out = _np.empty(moved.shape[:-1], dtype=object)
         for idx in _np.ndindex(*out.shape):
-            out[idx] = self._red(moved[idx], None, pick)
+            out[idx] = self._extreme(list(_np.asarray(moved[idx]).flat), kind)
         return out.view(RArr)
 
     def max(self, a, axis=None, **k):
-        return self._red(a, axis, lambda v, best: bool(v > best))
+        return self._red(a, axis, 'max')
     amax = max
 
     def min(self, a, axis=None, **k):
-        return self._red(a, axis, lambda v, best: bool(v < best))
+        return self._red(a, axis, 'min')
     amin = min
 
     def argmax(self, a, axis=None):
